@@ -109,10 +109,24 @@ func isLiteralIndex(s string) bool {
 
 // NormalizeComparisonOperators coalesces strict comparison operators (=== and !==) to loose operators (== and !=).
 // This is needed because the underlying expr evaluator supports == and != but not === and !==.
+// The text of a string literal is left as it is: in 'a===b' the characters are data.
 func NormalizeComparisonOperators(expr string) string {
 	result := make([]byte, 0, len(expr))
+	quote := byte(0) // the quote character of the string literal i is in, if any
 	for i := 0; i < len(expr); i++ {
-		if i+3 <= len(expr) && expr[i:i+3] == "===" {
+		if c := expr[i]; quote != 0 {
+			result = append(result, c)
+			if c == '\\' && i+1 < len(expr) {
+				// an escaped character, possibly the quote itself
+				i++
+				result = append(result, expr[i])
+			} else if c == quote {
+				quote = 0
+			}
+		} else if c == '"' || c == '\'' || c == '`' {
+			quote = c
+			result = append(result, c)
+		} else if i+3 <= len(expr) && expr[i:i+3] == "===" {
 			result = append(result, '=', '=')
 			i += 2
 		} else if i+3 <= len(expr) && expr[i:i+3] == "!==" {
